@@ -248,6 +248,10 @@ structure St where
   nFload : Nat := 0
   /-- every decoding op of the section so far with its observation: the same op later must observe the same -/
   seen : List (String × String) := []
+  /-- the conversions whose RESULT the harness holds: slot ↦ (tree the conversion returned, `convs` at that time) -/
+  slots : List (String × String × Nat) := []
+  /-- conversions / loads of the section so far (every one of them renders JSON somewhere) -/
+  convs : Nat := 0
 
 mutual
 /-- the type lies in the modelled family: every pointer is a one-level pointer to a primitive or to a struct.
@@ -604,6 +608,80 @@ def runFload (r : Report) (s : Section) (l : Line) (fs : Fields) (ext : String) 
         (if useEnv then s!"env-not-expanded-with-UseEnv class=env impl=[{impl}]" else s!"env-expanded-without-UseEnv class=env impl=[{impl}]")
   return r
 
+/-- **the bytes a front end hands out stay what they were**: `rd` re-reads the slice an earlier `cv` got from
+`encoding.YamlToJson / TomlToJson`, after whatever conversions and loads came in between.  Model: `Buf.lean`
+(`encodeSite = .freshLocal`): the held bytes are the caller's own, so `held = snap = the tree of that conversion`. -/
+def runRd (r : Report) (s : Section) (l : Line) (st : St) (slot : String) : Report := Id.run do
+  let mut r := r
+  match st.slots.find? (fun p => p.1 = slot) with
+  | none =>
+    r := r.addCover "rd-empty-slot"
+    if joinSp l.obs ≠ "empty" then r := r.mismatch s.idx l.idx "empty" (joinSp l.obs)
+  | some (_, tree, seq) =>
+    r := checkTok r s l "snap" tree
+    r := checkTok r s l "held" tree
+    r := checkTok r s l "raw" "same"
+    let later := st.convs - seq
+    r := r.addCover (if later = 0 then "rd-immediately" else if later = 1 then "rd-after-one-later-conversion" else "rd-after-several-later-conversions")
+    let g (k : String) : String := (obs? l.obs k).getD "?"
+    if g "held" ≠ g "snap" ∨ g "raw" ≠ "same" then
+      r := r.violation s.idx l.idx s!"conversion-result-invalidated class=buffer-reuse slot={slot} later-conversions={later} now=[{g "held"}] handed-out=[{g "snap"}]: the bytes YamlToJson / TomlToJson returned were changed by a later conversion or load"
+  return r
+
+/-- `pload`: the documents loaded one after the other (reference, checked against the model) and then by several
+goroutines at once. -/
+def runPload (r : Report) (s : Section) (l : Line) (fs : Fields) (workers : String) (docs : List J) : Report := Id.run do
+  let mut r := r
+  let oc : Opts := { confOpts with env := envOfTy (.struct fs) }
+  let ou : Opts := { env := envOfTy (.struct fs) }
+  let im := tyInModel (.struct fs)
+  let g (k : String) : String := (obs? l.obs k).getD "?"
+  r := r.addCover s!"pload-workers-{workers}"
+  r := r.addCover s!"pload-docs-{docs.length}"
+  let mut i := 0
+  for j in docs do
+    let coll := !(noCaseCollision j)
+    let ck (r : Report) (key model : String) : Report :=
+      if coll then r.addCover "pload-collision-unchecked" else checkTokM im r s l key model
+    let tomlOk := tomlFront j (fun _ => "x") ≠ "skip"
+    r := ck r s!"J{i}" (eitherF32 (fun o => printRes (loadJsonO o fs j)) oc (obs? l.obs s!"J{i}"))
+    r := ck r s!"Y{i}" (eitherF32 (fun o => printRes (loadYamlO o fs (embY j))) oc (obs? l.obs s!"Y{i}"))
+    r := ck r s!"T{i}" (eitherF32 (fun o => tomlFront j (fun t => printRes (loadTomlO o fs t))) oc (obs? l.obs s!"T{i}"))
+    r := ck r s!"MY{i}" (eitherF32 (fun o => printRes (unmarshalYaml o fs (embY j))) ou (obs? l.obs s!"MY{i}"))
+    r := ck r s!"MT{i}" (eitherF32 (fun o => tomlFront j (fun t => printRes (unmarshalToml o fs t))) ou (obs? l.obs s!"MT{i}"))
+    let useEnv := i % 2 = 1
+    let j' := if useEnv then expandDoc j else j
+    let fl : String :=
+      if i % 3 = 0 then eitherF32 (fun o => printRes (loadJsonO o fs j')) oc (obs? l.obs s!"FL{i}")
+      else if i % 3 = 1 ∨ ¬ tomlOk then eitherF32 (fun o => printRes (loadYamlO o fs (embY j'))) oc (obs? l.obs s!"FL{i}")
+      else eitherF32 (fun o => tomlFront j' (fun t => printRes (loadTomlO o fs t))) oc (obs? l.obs s!"FL{i}")
+    r := ck r s!"FL{i}" fl
+    if docHasDollar j then r := r.addCover (if useEnv then "pload-file-env-expanded" else "pload-file-env-literal")
+    r := r.addCover ("pload-doc-" ++ classOf (g s!"J{i}"))
+    if l.obs.any (fun t => t.endsWith "=panic") then
+      r := r.violation s.idx l.idx s!"loader-panicked class=panic at=pload obs=[{joinSp (l.obs.filter fun t => t.endsWith "=panic")}]"
+    if inScope j ∧ ¬ coll then
+      let a := g s!"J{i}"
+      let t := g s!"T{i}"
+      if a ≠ g s!"Y{i}" ∨ (t ≠ "skip" ∧ a ≠ t) then
+        r := r.violation s.idx l.idx s!"format-dependent class=format at=pload LJ=[{a}] LY=[{g s!"Y{i}"}] LT=[{t}] doc=[{printTree j}]"
+    i := i + 1
+  -- monitor: a load is a function of its own arguments, whatever runs at the same time
+  match obs? l.obs "CC" with
+  | some "same" => r := r.addCover "pload-concurrent-same"
+  | some d =>
+    r := (r.mismatch s.idx l.idx "CC=same" s!"CC={d}").violation s.idx l.idx
+      s!"concurrent-load-differs class=shared-state workers={workers} docs={docs.length} first=[{d}]: a load that runs at the same time as loads of OTHER documents returned something else than the same call alone (entry point + document index)"
+  | none => r := r.mismatch s.idx l.idx "CC=same" "CC missing"
+  match obs? l.obs "race" with
+  | some "na" => r := r.addCover "pload-race-detector-off"
+  | some "0" => r := r.addCover "pload-race-detector-clean"
+  | some "1" =>
+    r := (r.mismatch s.idx l.idx "race=0" "race=1").violation s.idx l.idx
+      s!"data-race-between-loads class=shared-state workers={workers} docs={docs.length}: the race detector fired while different documents were loaded concurrently (state shared between loads)"
+  | _ => r := r.mismatch s.idx l.idx "race=0|na" (joinSp l.obs)
+  return r
+
 def expandVar (name val : String) : String := if name = "C17unset" then "" else val
 
 def runFile (r : Report) (s : Section) (l : Line) : Report :=
@@ -642,7 +720,30 @@ def runSection (r : Report) (s : Section) : Report := Id.run do
         if p.2 ≠ ob ∧ ¬ (ob.splitOn "nondet").length > 1 then
           r := r.violation s.idx l.idx s!"load-depends-on-earlier-calls class=sequence op=[{key}] first=[{p.2}] now=[{ob}]"
       | none => st := { st with seen := (key, ob) :: st.seen }
+    if ["cv", "load", "munm", "cload", "fload", "pload"].contains (l.op.headD "") then
+      st := { st with convs := st.convs + 1 }
     match l.op with
+    | ["cv", slot, fmt, _, d] =>
+      match parseDocTok d with
+      | some j =>
+        if fmt = "y" ∨ fmt = "t" then
+          let model := if fmt = "y" then printTree (yamlGlue (embY j)) else tomlFront j (fun t => printTree (tomlGlue t))
+          r := checkTok r s l "tree" model
+          r := r.addCover (if fmt = "y" then "cv-yaml" else "cv-toml")
+          if st.slots.any (fun p => p.1 = slot) then r := r.addCover "cv-slot-overwritten"
+          if model = "skip" then pure ()
+          else if model = "err" then st := { st with slots := st.slots.filter (fun p => p.1 ≠ slot) }
+          else st := { st with slots := (slot, model, st.convs) :: st.slots.filter (fun p => p.1 ≠ slot) }
+        else r := r.mismatch s.idx l.idx "bad-op" (joinSp l.op)
+      | none => r := r.mismatch s.idx l.idx "bad-doc" d
+    | ["rd", slot] => r := runRd r s l st slot
+    | "pload" :: workers :: _ :: _ :: ds =>
+      match st.fs with
+      | none => if joinSp l.obs ≠ "no-type" then r := r.mismatch s.idx l.idx "no-type" (joinSp l.obs)
+      | some fs =>
+        let docs := ds.filterMap parseDocTok
+        if docs.length ≠ ds.length ∨ ds = [] then r := r.mismatch s.idx l.idx "bad-doc" (joinSp l.op)
+        else r := runPload r s l fs workers docs
     | ["type", t] =>
       match parseTyTok t with
       | some fs =>
